@@ -445,15 +445,9 @@ func genBlock(r *rand.Rand, big bool) jcase {
 	switch b.Typ {
 	case tsm1.BlockFloat64:
 		b.Nums = genFloatBits(r, n)
-		sum := 0.0
-		for i, x := range b.Nums { // keep blocks free of NaN and of the Inf-Inf shape (covered by the float cases)
-			f := math.Float64frombits(x)
-			if math.IsNaN(f) || (i > 0 && math.IsNaN(sum+f)) {
-				b.Nums[i] = 0x3FF0000000000000
-				f = 1
-			}
-			if i > 0 {
-				sum += f
+		for i, x := range b.Nums { // blocks are NaN-free (rejection is covered by the float cases)
+			if math.IsNaN(math.Float64frombits(x)) {
+				b.Nums[i] = 0x7FF0000000000000 ^ uint64(i&1)<<63 // +Inf / -Inf
 			}
 		}
 	case tsm1.BlockInteger, tsm1.BlockUnsigned:
